@@ -450,21 +450,50 @@ func Extract(el *etree.Element) *Message {
 }
 
 // FullText returns everything a reader of the reply could see, fully decoded:
-// headers, body, decoded form fields, inflated message.
+// headers, body, decoded form fields, redirect parameters, the decoded message.
+// Encoded blobs (the base64 message field / parameter, the Location that embeds
+// it) are left out in favour of their decoded content, so that a substring
+// search is not confused by base64 noise.
 func (d *Decoded) FullText() string {
 	var b strings.Builder
 	for k, vs := range d.Header {
+		if k == "Location" && d.Kind == "redirect" {
+			continue
+		}
 		for _, v := range vs {
 			b.WriteString(k + ": " + v + "\n")
 		}
 	}
-	b.Write(d.Body)
+	switch d.Kind {
+	case "form":
+		for i := range d.Tokens {
+			t := &d.Tokens[i]
+			if t.Kind == "text" || t.Kind == "comment" {
+				b.WriteString(t.Data + "\n")
+			}
+			if t.Kind == "start" {
+				n, _ := t.Attr("name")
+				for _, a := range t.Attrs {
+					if t.Name == "input" && n == "SAMLResponse" && a.Name == "value" {
+						continue
+					}
+					b.WriteString(a.Value + "\n")
+				}
+			}
+		}
+	case "redirect":
+	default:
+		b.Write(d.Body)
+	}
 	b.WriteString("\n")
 	b.WriteString(d.RelayState)
 	b.WriteString("\n")
 	b.WriteString(d.Target)
 	b.WriteString("\n")
-	for _, v := range d.Params {
+	for k, v := range d.Params {
+		if k == "SAMLResponse" || k == "Signature" {
+			continue
+		}
 		b.WriteString(v + "\n")
 	}
 	b.Write(d.XML)
